@@ -35,9 +35,12 @@ KINDS = ['hit', 'ctx', '404', '405', 'fall', 'exc', 'redir', 'hit2', 'app2', 'q4
 # further kinds, explored in the pairs listed in EXTRA_PAIRS: star = a route whose `*` binding is left empty and
 # whose endpoint appends to the list it was given; e404h / e405j = error responses negotiated for different Accept
 # headers.  For these pairs every execution is preceded by one sequential request of the first thread's kind.
-EXTRA_KINDS = ['star', 'e404h', 'e405j']
+EXTRA_KINDS = ['star', 'e404h', 'e405j', 'cklogin', 'cklogout']
+# cklogin / cklogout: a route behind SignedCookieMiddleware (session expiry, fixed clock) - one client stores its
+# token, the other logs out (gives its cookie an expiry)
 EXTRA_PAIRS = [('star', 'star'), ('star', 'hit'), ('star', '404'), ('e404h', 'e405j'), ('e405j', 'e404h'),
-               ('e404h', 'e404h'), ('e404h', '404'), ('e405j', 'exc'), ('e405j', 'q405')]
+               ('e404h', 'e404h'), ('e404h', '404'), ('e405j', 'exc'), ('e405j', 'q405'),
+               ('cklogout', 'cklogin'), ('cklogin', 'cklogout'), ('cklogin', 'cklogin')]
 # app2: served by a second Application; q405/qpost: a path with a GET-only and a POST-only route
 
 
@@ -101,10 +104,28 @@ class World(object):
 
         def second_q(val, x, request):
             return Response('posted|%s|%s|%s' % (val, x, request.headers.get('X-Tok')))
+        from clastic.middleware.cookie import SignedCookieMiddleware
+        import clastic.middleware.cookie as cm
+        import secure_cookie.cookie as sc
+
+        class FixedClock(object):
+            # the cookie code's clock is a seam: Expires / signatures must not depend on wall time
+            def time(self):
+                return 1700000000.0
+        cm.time = sc.time = FixedClock()
+
+        def ep_ck(cookie, request, val):
+            if request.args.get('op') == 'logout':
+                cookie['user'] = val
+                cookie.set_expires()
+            else:
+                cookie['user'] = val
+            return Response('ck|%s|%s' % (val, sorted(cookie.items())))
+
         def docs(rest, val):
             rest.append('index.%s' % val)
             return Response('docs|' + '/'.join(rest))
-        self.harness_funcs = [docs, Stamp.request, PerReq.request, PerReq.endpoint, ep, ep_ctx, render, nb, second, boom, second_q]
+        self.harness_funcs = [ep_ck, docs, Stamp.request, PerReq.request, PerReq.endpoint, ep, ep_ctx, render, nb, second, boom, second_q]
         from werkzeug.wrappers import Request
 
         class RecordingRequest(Request):
@@ -119,7 +140,8 @@ class World(object):
             request_type = RecordingRequest
         self.app = App([GET('/a/<x>', ep), ('/b/<x>/', ep), ('/c/<x>', ep_ctx, render), ('/n', nb), ('/n', second),
                                 ('/boom', boom), POST('/p', lambda: Response('p')), ('/d/<x:int>', ep),
-                                GET('/q/<x>', ep), POST('/q/<x>', second_q), ('/docs/<rest*>', docs)],
+                                GET('/q/<x>', ep), POST('/q/<x>', second_q), ('/docs/<rest*>', docs),
+                                Route('/ck', ep_ck, middlewares=[SignedCookieMiddleware(secret_key=b'c12-fixed-key')])],
                                middlewares=[Stamp(), PerReq()])
 
         self.app2 = App([GET('/z/<x>', ep)], middlewares=[Stamp(), PerReq()])
@@ -129,6 +151,10 @@ class World(object):
         h = {'X-Tok': tok, 'Host': tok + '.example'}       # every request names its own host
         if kind == 'star':
             return ('/docs', 'GET', q, h)
+        if kind == 'cklogin':
+            return ('/ck', 'GET', q + '&op=login', h)
+        if kind == 'cklogout':
+            return ('/ck', 'GET', q + '&op=logout', h)
         if kind == 'e404h':
             return ('/zz/' + tok, 'GET', q, dict(h, Accept='text/html'))
         if kind == 'e405j':
@@ -142,7 +168,8 @@ class World(object):
         path, method, q, h = self.request_for(kind, tok)
         res = wsgi.call(self.app2 if kind == 'app2' else self.app, path, method, query=q, headers=h)
         return (res.status, res.body, res.header('Location'), res.header('X-Stamp'), res.header('X-Ep'),
-                res.header('Allow'), repr(res.raised) if res.raised else None, res.header('Content-Type'))
+                res.header('Allow'), repr(res.raised) if res.raised else None, res.header('Content-Type'),
+                tuple(res.header_all('Set-Cookie')) if res.headers else None)
 
 
 def setup_world():
